@@ -47,6 +47,9 @@ func NewNormalIWishartDistribution(kappa, nu Scalar, mu Vector, lambda Matrix) (
     return nil, fmt.Errorf("invalid parameters")
   }
 
+  if kappa.GetFloat64() <= 0.0 {
+    return nil, fmt.Errorf("invalid parameters")
+  }
   iw, err := NewInverseWishartDistribution(nu, lambda)
   if err != nil {
     return nil, err
